@@ -3,6 +3,18 @@ import Isotp.Threaded
   Helper definitions and lemmas for C12 ("every send request terminates exactly once with the
   right outcome").  Everything lives in `Isotp.C12`; the property theorems are in
   `Isotp/Props/C12.lean`.
+
+  Contents:
+  * bookkeeping projections `pendingIds` / `doneIds` / `accounted` and the `key` of a state;
+  * `_process_tx` cut into stages (`txPend`, `txFc`, `txTimeout`, `txDepl`, `txFsm`, `txFinish`;
+    `sfTail` / `ffTail` / `cfTail` / `cfEnd` for `startTx` and `transmitCf`), each tied to the frozen
+    model by a `rfl` lemma (`processTx_eq`, `startTx_eq`, `transmitCf_eq`);
+  * conservation of `accounted` (`*_acc`), `_make_tx_msg` totality under `Cfg.valid`, the transmit
+    invariant `Inv` (`*_inv`), `Good`, `Keeps` for the loops and the public operations;
+  * histories (`Op`, `step`, `run`, `accepted`, `run_accounted`);
+  * the events a `_process_tx` call logs: `succL`, `Pre`, log suffix lemmas (`*_sfx`), `Justified`,
+    `processTx_success_late`;
+  * aborts (`reset`, `TL.stop`, protocol errors) and uniqueness of the outcome.
 -/
 set_option linter.unusedSimpArgs false
 set_option linter.unusedVariables false
@@ -1170,5 +1182,854 @@ theorem run_accounted (s : State) (ops : List Op) (g : Good s) :
     | reset =>
       simp only [run, accepted, step] at ih' ⊢
       exact ih'.trans (List.Perm.append_right _ (reset_perm s))
+
+
+/-! ## Which events a `_process_tx` call logs -/
+
+/-- the request id of a *successful* completion event -/
+def succOf : Ev → Option Nat
+  | .done id true => some id
+  | _ => none
+
+/-- ids of the successful completions of a log (same order as the log: newest first) -/
+def succL (l : List Ev) : List Nat := l.filterMap succOf
+
+@[simp] theorem succL_nil : succL [] = [] := rfl
+@[simp] theorem succL_done_true (i : Nat) (l : List Ev) : succL (.done i true :: l) = i :: succL l := by
+  simp [succL, List.filterMap_cons, succOf]
+@[simp] theorem succL_done_false (i : Nat) (l : List Ev) : succL (.done i false :: l) = succL l := by
+  simp [succL, List.filterMap_cons, succOf]
+@[simp] theorem succL_tx (t : Nat) (m : CanMsg) (l : List Ev) : succL (.tx t m :: l) = succL l := by
+  simp [succL, List.filterMap_cons, succOf]
+@[simp] theorem succL_err (t : Nat) (e : Err) (l : List Ev) : succL (.err t e :: l) = succL l := by
+  simp [succL, List.filterMap_cons, succOf]
+@[simp] theorem succL_deliver (p : Bytes) (l : List Ev) : succL (.deliver p :: l) = succL l := by
+  simp [succL, List.filterMap_cons, succOf]
+@[simp] theorem succL_pull (i n : Nat) (l : List Ev) : succL (.pull i n :: l) = succL l := by
+  simp [succL, List.filterMap_cons, succOf]
+@[simp] theorem succL_rx (t : Nat) (m : CanMsg) (l : List Ev) : succL (.rx t m :: l) = succL l := by
+  simp [succL, List.filterMap_cons, succOf]
+@[simp] theorem succL_rxNone (t : Nat) (l : List Ev) : succL (.rxNone t :: l) = succL l := by
+  simp [succL, List.filterMap_cons, succOf]
+theorem succL_append (a b : List Ev) : succL (a ++ b) = succL a ++ succL b := by simp [succL]
+theorem mem_succL (id : Nat) (l : List Ev) : id ∈ succL l ↔ Ev.done id true ∈ l := by
+  simp only [succL, List.mem_filterMap]
+  constructor
+  · rintro ⟨e, he, h⟩
+    cases e <;> simp [succOf] at h
+    rename_i i b
+    cases b <;> simp [succOf] at h
+    subst h; exact he
+  · intro h; exact ⟨_, h, rfl⟩
+
+theorem stopSending_fields (s : State) (b : Bool) :
+    (s.stopSending b).txQueue = s.txQueue ∧ (s.stopSending b).cfg = s.cfg ∧ (s.stopSending b).addr = s.addr ∧
+    (s.stopSending b).exc = s.exc ∧ (s.stopSending b).txState = .idle ∧ (s.stopSending b).active = none ∧
+    (s.stopSending b).standby = none ∧ (s.stopSending b).now = s.now ∧
+    succL (s.stopSending b).log = (if b then optId s.active else []) ++ succL s.log ∧
+    s.log <:+ (s.stopSending b).log := by
+  unfold stopSending
+  cases h : s.active <;> cases b <;> simp [emit, h]
+
+theorem makeTxMsg_data (c : Cfg) (a : Addr) (i : Nat) (d : Bytes) (msg : CanMsg) (h : makeTxMsg c a i d = some msg) :
+    ∃ pad, msg.data = d ++ pad := by
+  unfold makeTxMsg pad at h
+  grind
+
+/-- relation between the state at the entry of `_process_tx` and the state at the entry of its FSM part
+    (after the Flow Control and timeout handling): static fields and the queue untouched, no new
+    successful completion, and the transmission either aborted or still the same one. -/
+def Pre (s s' : State) : Prop :=
+  s'.txQueue = s.txQueue ∧ s'.cfg = s.cfg ∧ s'.addr = s.addr ∧ s'.exc = s.exc ∧ s'.now = s.now ∧
+  succL s'.log = succL s.log ∧
+  ((s'.txState = .idle ∧ s'.active = none) ∨
+   (s'.active = s.active ∧ s'.standby = s.standby ∧ s'.txSeq = s.txSeq ∧
+     (s'.txState = s.txState ∨
+      ((s'.txState = .waitFc ∨ s'.txState = .transmitCf) ∧ (s.txState = .waitFc ∨ s.txState = .transmitCf)))))
+
+theorem Pre.refl (s : State) : Pre s s := by simp [Pre]
+
+theorem Pre.trans {a b c : State} (h1 : Pre a b) (h2 : Pre b c) : Pre a c := by
+  unfold Pre at *; grind
+
+theorem handleFc_pre (s : State) (f : FcFrame) : Pre s (s.handleFc f) := by
+  have h1 := stopSending_fields
+  unfold Pre handleFc
+  grind [State.error, emit, startRxFcTimer, succL_err]
+
+theorem txPend_fields (s : State) :
+    (txPend s).1.txQueue = s.txQueue ∧ (txPend s).1.cfg = s.cfg ∧ (txPend s).1.addr = s.addr ∧
+    (txPend s).1.now = s.now ∧ (txPend s).1.log = s.log ∧ (txPend s).1.active = s.active ∧
+    (txPend s).1.standby = s.standby ∧ (txPend s).1.txSeq = s.txSeq ∧ (txPend s).1.txState = s.txState := by
+  refine ⟨?_, ?_, ?_, ?_, ?_, ?_, ?_, ?_, ?_⟩ <;> (unfold txPend; grind [State.raise, startRxCfTimer])
+
+theorem txPend_exc (s : State) (h : (txPend s).2 = none) : (txPend s).1.exc = s.exc := by
+  unfold txPend at *
+  grind [State.raise, startRxCfTimer]
+
+theorem txPend_pre (s : State) (s1 : State) (h : txPend s = (s1, none)) : Pre s s1 := by
+  have h1 := txPend_fields s
+  have h2 := txPend_exc s (by rw [h])
+  rw [h] at h1 h2
+  simp only at h1 h2
+  simp [Pre, h1, h2]
+
+theorem txFc_pre (s : State) : Pre s (txFc s).1 := by
+  unfold txFc
+  cases hf : s.lastFc with
+  | none => simp [Pre]
+  | some f =>
+    simp only
+    split
+    · have h1 := stopSending_fields { s with lastFc := none } false
+      simp only [Pre, State.error, emit, succL_err]
+      simp_all
+    · exact Pre.trans (by simp [Pre]) (handleFc_pre _ f)
+
+theorem txTimeout_pre (s : State) : Pre s (txTimeout s) := by
+  have h1 := stopSending_fields
+  unfold Pre txTimeout
+  grind [State.error, emit, succL_err]
+
+
+/-! ### the log only grows -/
+
+theorem stopSending_sfx (s : State) (b : Bool) : s.log <:+ (s.stopSending b).log :=
+  (stopSending_fields s b).2.2.2.2.2.2.2.2.2
+
+theorem handleFc_sfx (s : State) (f : FcFrame) : s.log <:+ (s.handleFc f).log := by
+  have h1 := stopSending_sfx
+  unfold handleFc
+  grind [State.error, emit, startRxFcTimer, List.suffix_refl, List.suffix_cons, List.IsSuffix.trans]
+
+theorem txFc_sfx (s : State) : s.log <:+ (txFc s).1.log := by
+  have h1 := stopSending_sfx
+  have h2 := handleFc_sfx
+  unfold txFc
+  grind [State.error, emit, List.suffix_refl, List.suffix_cons, List.IsSuffix.trans]
+
+theorem txTimeout_sfx (s : State) : s.log <:+ (txTimeout s).log := by
+  have h1 := stopSending_sfx
+  unfold txTimeout
+  grind [State.error, emit, List.suffix_refl, List.suffix_cons, List.IsSuffix.trans]
+
+theorem txDepl_sfx (s : State) : s.log <:+ (txDepl s).log := by
+  have h1 := stopSending_sfx
+  unfold txDepl
+  grind [List.suffix_refl]
+
+theorem consumeActive_sfx (s : State) (r : Req) (n : Nat) (e : Bool) : s.log <:+ (s.consumeActive r n e).1.log := by
+  unfold consumeActive
+  grind [emit, List.suffix_refl, List.suffix_cons]
+
+theorem sfTail_sfx (s : State) (r : Req) (b : Bool) (allowed : Nat) (res : Option Bytes) :
+    s.log <:+ (sfTail s r b allowed res).1.log := by
+  have h1 := stopSending_sfx
+  unfold sfTail
+  grind [State.error, State.raise, emit, List.suffix_refl, List.suffix_cons, List.IsSuffix.trans]
+
+theorem ffTail_sfx (s : State) (total : Nat) (allowed : Nat) (res : Option Bytes) :
+    s.log <:+ (ffTail s total allowed res).1.log := by
+  have h1 := stopSending_sfx
+  unfold ffTail
+  grind [State.error, State.raise, emit, startRxFcTimer, List.suffix_refl, List.suffix_cons, List.IsSuffix.trans]
+
+theorem startTx_sfx (s : State) (r : Req) (allowed : Nat) : s.log <:+ (s.startTx r allowed).1.log := by
+  rw [startTx_eq]
+  split
+  · exact (consumeActive_sfx s r _ _).trans (sfTail_sfx _ _ _ _ _)
+  · exact (consumeActive_sfx { s with txFrameLen := r.size } r _ _).trans (ffTail_sfx _ _ _ _)
+
+theorem readTxQueue_sfx (s : State) (allowed : Nat) (q : List Req) : s.log <:+ (s.readTxQueue allowed q).1.log := by
+  induction q generalizing s with
+  | nil => exact List.suffix_refl _
+  | cons r rest ih =>
+    cases hd : r.depleted
+    · rw [readTxQueue_start _ _ _ _ hd]
+      exact startTx_sfx { s with txQueue := rest, active := some r } _ _
+    · rw [readTxQueue_depl _ _ _ _ hd]
+      exact (List.suffix_cons (.done r.id true) s.log).trans
+        (ih { s with txQueue := rest, active := none, log := .done r.id true :: s.log })
+
+theorem cfTail_sfx (s : State) (r' : Req) (rbs : Nat) (res : Option Bytes) :
+    s.log <:+ (cfTail s r' rbs res).1.log := by
+  have h1 := stopSending_sfx
+  unfold cfTail
+  grind [State.error, State.raise, emit, startRxFcTimer, List.suffix_refl, List.suffix_cons, List.IsSuffix.trans]
+
+theorem transmitCf_sfx (s : State) (allowed : Nat) : s.log <:+ (s.transmitCf allowed).1.log := by
+  rw [transmitCf_eq]
+  split
+  · exact List.suffix_refl _
+  · exact List.suffix_refl _
+  · split
+    · split
+      · exact (consumeActive_sfx s _ _ _).trans (cfTail_sfx _ _ _ _)
+      · exact List.suffix_refl _
+    · exact List.suffix_refl _
+
+theorem txFsm_sfx (s : State) (allowed : Nat) : s.log <:+ (txFsm s allowed).1.log := by
+  have h1 := stopSending_sfx
+  have h2 := transmitCf_sfx s allowed
+  have h3 := readTxQueue_sfx s allowed s.txQueue
+  unfold txFsm
+  grind [startRxFcTimer, List.suffix_refl, List.suffix_cons, List.IsSuffix.trans]
+
+theorem txFinish_log (x : State × Option CanMsg × Bool) : (txFinish x).1.log = x.1.log := by
+  unfold txFinish; grind
+
+/-- `_process_tx` only appends to the log. -/
+theorem processTx_sfx (s : State) : s.log <:+ s.processTx.1.log := by
+  rw [processTx_eq]
+  have a1 := (txPend_fields s).2.2.2.2.1
+  split
+  · simp_all
+  · simp_all
+  · rename_i s1 hp
+    rw [hp] at a1
+    have a2 := txFc_sfx s1
+    split
+    · simp_all
+    · rename_i s2 hf
+      rw [hf] at a2
+      have a3 := txTimeout_sfx s2
+      split
+      · simp only [State.raise]; simp_all; exact a2.trans a3
+      · rw [txFinish_log]
+        simp only at a1 a2
+        rw [a1] at a2
+        exact ((a2.trans a3).trans (txDepl_sfx _)).trans (txFsm_sfx _ _)
+
+
+/-! ### successful completions and the frame that justifies them -/
+
+/-- Why a successful completion `SendRequest.complete(True)` of request `id`, logged by a `_process_tx`
+    call entered in state `s` and returning the frame `out`, is legitimate:
+    either the payload is empty (there is no frame to send), or `out` is the *last* frame of the request:
+    its Single Frame (fresh from the queue or released from the rate-limiter standby) or the Consecutive
+    Frame that carries all the bytes that were still to be sent. -/
+inductive Justified (s : State) (out : Option CanMsg) (id : Nat) : Prop
+  | empty (r : Req) (hq : r ∈ s.txQueue) (hid : r.id = id) (hsz : r.size = 0)
+  | single (r : Req) (msg : CanMsg) (hq : r ∈ s.txQueue) (hid : r.id = id) (hout : out = some msg)
+      (hfit : r.size + sfOff s r + s.txPrefixLen ≤ s.cfg.txDl)
+      (hdata : ∃ hdr pad, msg.data = s.addr.tx.txPrefix ++ hdr ++ r.src.take r.size ++ pad)
+  | standby (r : Req) (msg : CanMsg) (ha : s.active = some r) (hid : r.id = id) (hst : s.txState = .sfStandby)
+      (hsb : s.standby = some msg) (hout : out = some msg)
+  | lastCf (r : Req) (msg : CanMsg) (ha : s.active = some r) (hid : r.id = id)
+      (hst : s.txState = .transmitCf ∨ s.txState = .waitFc) (hrem : 0 < r.remaining)
+      (hfit : r.remaining ≤ s.cfg.txDl - 1 - s.txPrefixLen) (hout : out = some msg)
+      (hdata : ∃ pad, msg.data = s.addr.tx.txPrefix ++ [u8 (0x20 + s.txSeq)] ++ r.src.take r.remaining ++ pad)
+
+theorem Justified.of_pre {s s' : State} {out : Option CanMsg} {id : Nat} (hp : Pre s s')
+    (h : Justified s' out id) : Justified s out id := by
+  obtain ⟨hq, hc, had, -, -, -, htx⟩ := hp
+  cases h with
+  | empty r h1 h2 h3 => exact .empty r (hq ▸ h1) h2 h3
+  | single r msg h1 h2 h3 h4 h5 =>
+    refine .single r msg (hq ▸ h1) h2 h3 ?_ ?_
+    · have : sfOff s' r = sfOff s r := by unfold sfOff sizeOnFirst txPrefixLen; rw [hc, had]
+      rw [this] at h4
+      simpa [txPrefixLen, hc, had] using h4
+    · simpa [had] using h5
+  | standby r msg h1 h2 h3 h4 h5 =>
+    rcases htx with ⟨-, h⟩ | ⟨ha, hs, -, hst⟩
+    · simp [h] at h1
+    · refine .standby r msg (ha ▸ h1) h2 ?_ (hs ▸ h4) h5
+      rcases hst with h | ⟨h, -⟩
+      · exact h ▸ h3
+      · simp [h3] at h
+  | lastCf r msg h1 h2 h3 h4 h5 h6 h7 =>
+    rcases htx with ⟨-, h⟩ | ⟨ha, hs, hsq, hst⟩
+    · simp [h] at h1
+    · refine .lastCf r msg (ha ▸ h1) h2 ?_ h4 ?_ h6 ?_
+      · rcases hst with h | ⟨-, h⟩
+        · exact h ▸ h3
+        · exact h.symm
+      · simpa [txPrefixLen, hc, had] using h5
+      · simpa [had, hsq] using h7
+
+theorem sfTail_succ (s : State) (r : Req) (b : Bool) (allowed : Nat) (res : Option Bytes) (r' : Req)
+    (ha : s.active = some r') :
+    ∃ new, succL (sfTail s r b allowed res).1.log = new ++ succL s.log ∧
+      ∀ id ∈ new, id = r'.id ∧ (sfTail s r b allowed res).1.exc = s.exc ∧
+        ∃ p msg, res = some p ∧ (sfTail s r b allowed res).2 = some msg ∧
+          ∃ hdr pad, msg.data = s.addr.tx.txPrefix ++ hdr ++ p ++ pad := by
+  unfold sfTail
+  cases res with
+  | none =>
+    refine ⟨[], ?_, by simp⟩
+    have := (stopSending_fields (s.error .BadGenerator) false).2.2.2.2.2.2.2.2.1
+    simpa [State.error, emit] using this
+  | some p =>
+    simp only
+    generalize (if b = true then [u8 p.length] else [0, u8 p.length]) = hdr
+    cases hm : makeTxMsg s.cfg s.addr (s.addr.tx.txId r.tat) (s.addr.tx.txPrefix ++ hdr ++ p) with
+    | none => exact ⟨[], by simp [State.raise], by simp⟩
+    | some msg =>
+      simp only
+      split
+      · exact ⟨[], by simp, by simp⟩
+      · have hf := stopSending_fields s true
+        refine ⟨[r'.id], by simp [hf.2.2.2.2.2.2.2.2.1, ha], ?_⟩
+        intro id hid
+        simp only [List.mem_singleton] at hid
+        obtain ⟨pad, hpad⟩ := makeTxMsg_data _ _ _ _ _ hm
+        exact ⟨hid, hf.2.2.2.1, p, msg, rfl, rfl, hdr, pad, hpad⟩
+
+theorem ffTail_succ (s : State) (total : Nat) (allowed : Nat) (res : Option Bytes) :
+    succL (ffTail s total allowed res).1.log = succL s.log := by
+  have h1 := stopSending_fields
+  unfold ffTail
+  grind [State.error, State.raise, emit, startRxFcTimer, succL_err]
+
+theorem consumeActive_succ (s : State) (r : Req) (n : Nat) (e : Bool) :
+    succL (s.consumeActive r n e).1.log = succL s.log ∧ (s.consumeActive r n e).1.exc = s.exc ∧
+    (s.consumeActive r n e).1.addr = s.addr ∧ (s.consumeActive r n e).1.txSeq = s.txSeq := by
+  unfold consumeActive
+  grind [emit, succL_pull]
+
+theorem startTx_succ (s : State) (r : Req) (allowed : Nat) :
+    ∃ new, succL (s.startTx r allowed).1.log = new ++ succL s.log ∧
+      ∀ id ∈ new, id = r.id ∧ (s.startTx r allowed).1.exc = s.exc ∧
+        ∃ msg, (s.startTx r allowed).2 = some msg ∧ r.size + sfOff s r + s.txPrefixLen ≤ s.cfg.txDl ∧
+          ∃ hdr pad, msg.data = s.addr.tx.txPrefix ++ hdr ++ r.src.take r.size ++ pad := by
+  rw [startTx_eq]
+  split
+  · rename_i hfit
+    obtain ⟨l, hl, -⟩ := consumeActive_fst s r r.size true
+    obtain ⟨c1, c2, c3, -⟩ := consumeActive_succ s r r.size true
+    obtain ⟨new, h1, h2⟩ := sfTail_succ (s.consumeActive r r.size true).1 r (sizeOnFirst s r) allowed
+      (s.consumeActive r r.size true).2.2 (r.consume r.size true).1 (by rw [hl])
+    refine ⟨new, by rw [h1, c1], ?_⟩
+    intro id hid
+    obtain ⟨e1, e2, p, msg, e3, e4, hdr, pad, e5⟩ := h2 id hid
+    rw [consumeActive_snd] at e3
+    have hp := (consume_exact r r.size p e3).2.1
+    refine ⟨by rw [e1, consume_id], by rw [e2, c2], msg, e4, hfit, hdr, pad, ?_⟩
+    rw [e5, c3, hp]
+  · refine ⟨[], ?_, by simp⟩
+    rw [ffTail_succ, (consumeActive_succ _ _ _ _).1]; rfl
+
+theorem readTxQueue_succ (s : State) (allowed : Nat) (q : List Req) (hq : Fresh q) :
+    ∃ new, succL (s.readTxQueue allowed q).1.log = new ++ succL s.log ∧
+      ∀ id ∈ new,
+        ((∃ r ∈ q, r.id = id ∧ r.size = 0) ∨
+         ((s.readTxQueue allowed q).1.exc = s.exc ∧
+          ∃ r ∈ q, ∃ msg, r.id = id ∧ (s.readTxQueue allowed q).2 = some msg ∧
+            r.size + sfOff s r + s.txPrefixLen ≤ s.cfg.txDl ∧
+            ∃ hdr pad, msg.data = s.addr.tx.txPrefix ++ hdr ++ r.src.take r.size ++ pad)) := by
+  induction q generalizing s with
+  | nil => exact ⟨[], rfl, by simp⟩
+  | cons r rest ih =>
+    cases hd : r.depleted
+    · rw [readTxQueue_start _ _ _ _ hd]
+      obtain ⟨new, h1, h2⟩ := startTx_succ { s with txQueue := rest, active := some r } r allowed
+      refine ⟨new, h1, ?_⟩
+      intro id hid
+      obtain ⟨e1, e2, msg, e3, e4, e5⟩ := h2 id hid
+      exact .inr ⟨e2, r, by simp, msg, e1.symm, e3, e4, e5⟩
+    · rw [readTxQueue_depl _ _ _ _ hd]
+      obtain ⟨new, h1, h2⟩ := ih { s with txQueue := rest, active := none, log := .done r.id true :: s.log }
+        (fun x hx => hq x (List.mem_cons_of_mem _ hx))
+      refine ⟨new ++ [r.id], by rw [h1]; simp, ?_⟩
+      intro id hid
+      simp only [List.mem_append, List.mem_singleton] at hid
+      rcases hid with hid | rfl
+      · rcases h2 id hid with ⟨x, hx, e⟩ | ⟨e0, x, hx, e⟩
+        · exact .inl ⟨x, List.mem_cons_of_mem _ hx, e⟩
+        · exact .inr ⟨e0, x, List.mem_cons_of_mem _ hx, e⟩
+      · refine .inl ⟨r, by simp, rfl, ?_⟩
+        have := hq r (by simp)
+        unfold Req.depleted at hd
+        grind
+
+
+/-- the end of `cfTail`: what happens after the Consecutive Frame (if any) was built -/
+def cfEnd (s : State) (r' : Req) (rbs : Nat) (out : Option CanMsg) : State × Option CanMsg × Bool :=
+  if r'.depleted then
+    if r'.remaining > 0 then ((s.error .BadGenerator).stopSending false, out, false)
+    else (s.stopSending true, out, false)
+  else if rbs ≠ 0 && s.txBlockCnt ≥ rbs then
+    (({ s with txState := .waitFc }).startRxFcTimer, out, true)
+  else (s, out, false)
+
+theorem cfEnd_succ (s : State) (r' : Req) (rbs : Nat) (out : Option CanMsg) (ha : s.active = some r') :
+    ∃ new, succL (cfEnd s r' rbs out).1.log = new ++ succL s.log ∧
+      ∀ id ∈ new, id = r'.id ∧ (cfEnd s r' rbs out).1.exc = s.exc ∧ r'.remaining = 0 ∧
+        (cfEnd s r' rbs out).2.1 = out := by
+  unfold cfEnd
+  split
+  · split
+    · refine ⟨[], ?_, by simp⟩
+      have := (stopSending_fields (s.error .BadGenerator) false).2.2.2.2.2.2.2.2.1
+      simpa [State.error, emit] using this
+    · have hf := stopSending_fields s true
+      refine ⟨[r'.id], by simp [hf.2.2.2.2.2.2.2.2.1, ha], ?_⟩
+      intro id hid
+      simp only [List.mem_singleton] at hid
+      exact ⟨hid, hf.2.2.2.1, by omega, rfl⟩
+  · split
+    · exact ⟨[], by simp [startRxFcTimer], by simp⟩
+    · exact ⟨[], by simp, by simp⟩
+
+/-- bookkeeping after a Consecutive Frame was built -/
+def cfSent (s : State) : State :=
+  { s with txSeq := (s.txSeq + 1) % 16, timerStmin := s.timerStmin.startAt s.now, txBlockCnt := s.txBlockCnt + 1 }
+
+theorem cfTail_succ (s : State) (r' : Req) (rbs : Nat) (res : Option Bytes) (ha : s.active = some r') :
+    ∃ new, succL (cfTail s r' rbs res).1.log = new ++ succL s.log ∧
+      ∀ id ∈ new, id = r'.id ∧ (cfTail s r' rbs res).1.exc = s.exc ∧ r'.remaining = 0 ∧
+        ∃ p, res = some p ∧ (0 < p.length → ∃ msg pad, (cfTail s r' rbs res).2.1 = some msg ∧
+          msg.data = s.addr.tx.txPrefix ++ [u8 (0x20 + s.txSeq)] ++ p ++ pad) := by
+  cases res with
+  | none => exact ⟨[], by simp [cfTail, State.raise], by simp⟩
+  | some p =>
+    by_cases hp : 0 < p.length
+    · cases hm : makeTxMsg s.cfg s.addr (s.addr.tx.txId .physical) (s.addr.tx.txPrefix ++ [u8 (0x20 + s.txSeq)] ++ p) with
+      | none => exact ⟨[], by simp only [cfTail, hp, ↓reduceIte, hm]; rfl, by simp⟩
+      | some msg =>
+        obtain ⟨pad, hpad⟩ := makeTxMsg_data _ _ _ _ _ hm
+        have he : cfTail s r' rbs (some p) = cfEnd (cfSent s) r' rbs (some msg) := by
+          simp only [cfTail, hp, ↓reduceIte, hm]; rfl
+        rw [he]
+        obtain ⟨new, h1, h2⟩ := cfEnd_succ (cfSent s) r' rbs (some msg) ha
+        refine ⟨new, h1, ?_⟩
+        intro id hid
+        obtain ⟨e1, e2, e3, e4⟩ := h2 id hid
+        exact ⟨e1, e2, e3, p, rfl, fun _ => ⟨msg, pad, e4, hpad⟩⟩
+    · have he : cfTail s r' rbs (some p) = cfEnd s r' rbs none := by
+        simp [cfTail, hp, cfEnd]
+      rw [he]
+      obtain ⟨new, h1, h2⟩ := cfEnd_succ s r' rbs none ha
+      refine ⟨new, h1, ?_⟩
+      intro id hid
+      obtain ⟨e1, e2, e3, e4⟩ := h2 id hid
+      exact ⟨e1, e2, e3, p, rfl, fun h => absurd h hp⟩
+
+
+theorem transmitCf_succ (s : State) (allowed : Nat) (g : Good s) (hst : s.txState = .transmitCf) :
+    ∃ new, succL (s.transmitCf allowed).1.log = new ++ succL s.log ∧
+      ∀ id ∈ new, (s.transmitCf allowed).1.exc = s.exc ∧ Justified s (s.transmitCf allowed).2.1 id := by
+  have ⟨hv8, hv64⟩ := valid_txDl _ g.1
+  have hpl : s.txPrefixLen ≤ 1 := txPrefix_le s.addr
+  rw [transmitCf_eq]
+  split
+  · exact ⟨[], rfl, by simp⟩
+  · exact ⟨[], rfl, by simp⟩
+  · rename_i rbs r hrbs ha
+    split
+    · split
+      · have hnd : r.depleted = false := by
+          cases hd : r.depleted
+          · rfl
+          · have := (g.2.act r ha hd).1; simp_all
+        have hrem : 0 < r.remaining ∧ r.consumed + r.remaining = r.size := by
+          unfold Req.depleted at hnd; unfold Req.remaining; grind
+        obtain ⟨l, hl, -⟩ := consumeActive_fst s r (cfLen s r) false
+        obtain ⟨c1, c2, c3, c4⟩ := consumeActive_succ s r (cfLen s r) false
+        obtain ⟨new, h1, h2⟩ := cfTail_succ (s.consumeActive r (cfLen s r) false).1
+          (s.consumeActive r (cfLen s r) false).2.1 rbs (s.consumeActive r (cfLen s r) false).2.2 (by rw [hl]; rfl)
+        refine ⟨new, by rw [h1, c1], ?_⟩
+        intro id hid
+        obtain ⟨e1, e2, e3, p, e4, e5⟩ := h2 id hid
+        rw [consumeActive_snd] at e1 e3 e4
+        obtain ⟨p1, p2, p3, p4, -⟩ := consume_loose r (cfLen s r) p e4
+        have hsz := consume_size r (cfLen s r) false
+        have hplen : p.length = r.remaining := by
+          unfold Req.remaining at e3 hrem ⊢; omega
+        have hcf : cfLen s r = r.remaining := by
+          have : cfLen s r ≤ r.remaining := by unfold cfLen; omega
+          omega
+        obtain ⟨msg, pad, e6, e7⟩ := e5 (by omega)
+        refine ⟨by rw [e2, c2], .lastCf r msg ha (by rw [e1, consume_id]) (.inl hst) hrem.1 ?_ e6 ⟨pad, ?_⟩⟩
+        · unfold cfLen at hcf; omega
+        · rw [e7, c3, c4, p2, hcf]
+      · exact ⟨[], rfl, by simp⟩
+    · exact ⟨[], rfl, by simp⟩
+
+theorem txFsm_succ (s : State) (allowed : Nat) (g : Good s) :
+    ∃ new, succL (txFsm s allowed).1.log = new ++ succL s.log ∧
+      ∀ id ∈ new, Justified s (txFsm s allowed).2.1 id ∧
+        ((txFsm s allowed).1.exc = s.exc ∨ ∃ r ∈ s.txQueue, r.id = id ∧ r.size = 0) := by
+  unfold txFsm
+  split
+  · obtain ⟨new, h1, h2⟩ := readTxQueue_succ s allowed s.txQueue g.2.fresh
+    refine ⟨new, h1, ?_⟩
+    intro id hid
+    rcases h2 id hid with ⟨r, hr, e1, e2⟩ | ⟨e0, r, hr, msg, e1, e2, e3, e4⟩
+    · exact ⟨.empty r hr e1 e2, .inr ⟨r, hr, e1, e2⟩⟩
+    · exact ⟨.single r msg hr e1 e2 e3 e4, .inl e0⟩
+  · rename_i hst
+    cases hsb : s.standby with
+    | none => exact ⟨[], rfl, by simp⟩
+    | some msg =>
+      simp only
+      split
+      · have hne : ¬ (({ s with standby := none } : State).txState = .ffStandby) := by simp [hst]
+        rw [if_neg hne]
+        have hf := stopSending_fields { s with standby := none } true
+        refine ⟨optId s.active, by simp [hf.2.2.2.2.2.2.2.2.1], ?_⟩
+        intro id hid
+        rcases Option.eq_none_or_eq_some s.active with ha | ⟨r, ha⟩
+        · simp [ha] at hid
+        · simp only [ha, optId_some, List.mem_singleton] at hid
+          exact ⟨.standby r msg ha hid.symm hst hsb rfl, .inl hf.2.2.2.1⟩
+      · exact ⟨[], rfl, by simp⟩
+  · rename_i hst
+    cases hsb : s.standby with
+    | none => exact ⟨[], rfl, by simp⟩
+    | some msg =>
+      simp only
+      split
+      · simp only [hst, ↓reduceIte]
+        exact ⟨[], by simp [startRxFcTimer], by simp⟩
+      · exact ⟨[], rfl, by simp⟩
+  · exact ⟨[], rfl, by simp⟩
+  · rename_i hst
+    obtain ⟨new, h1, h2⟩ := transmitCf_succ s allowed g hst
+    exact ⟨new, h1, fun id hid => ⟨(h2 id hid).2, .inl (h2 id hid).1⟩⟩
+
+
+theorem txFinish_out (x : State × Option CanMsg × Bool) (h : x.1.exc = none) : (txFinish x).2.1 = x.2.1 := by
+  obtain ⟨s, out, imm⟩ := x
+  unfold txFinish
+  simp only at h ⊢
+  simp only [h, Option.isSome_none, Bool.false_eq_true, ↓reduceIte]
+  cases out <;> rfl
+
+/-- **Success is never signalled before the last frame.**  In a `_process_tx` call entered in a reachable
+    state (no pending exception), every *new* successful completion is justified: empty payload, or the
+    frame returned by this very call is the request's last frame. -/
+theorem processTx_succ (s : State) (g : Good s) (hx : s.exc = none) :
+    ∃ new, succL s.processTx.1.log = new ++ succL s.log ∧ ∀ id ∈ new, Justified s s.processTx.2.1 id := by
+  rw [processTx_eq]
+  have f1 := (txPend_fields s).2.2.2.2.1
+  have i1 := txPend_inv s g.2
+  split
+  · rename_i s1 hp; rw [hp] at f1; exact ⟨[], by simp_all, by simp⟩
+  · rename_i s1 msg hp; rw [hp] at f1; exact ⟨[], by simp_all, by simp⟩
+  · rename_i s1 hp
+    rw [hp] at i1
+    have p1 := txPend_pre s s1 hp
+    have p2 := p1.trans (txFc_pre s1)
+    have i2 := txFc_inv s1 i1
+    split
+    · rename_i s2 hf
+      rw [hf] at p2
+      exact ⟨[], by simp [p2.2.2.2.2.2.1], by simp⟩
+    · rename_i s2 hf
+      rw [hf] at p2 i2
+      have p3 := p2.trans (txTimeout_pre s2)
+      have i3 := txTimeout_inv s2 i2
+      split
+      · exact ⟨[], by simp [State.raise, p3.2.2.2.2.2.1], by simp⟩
+      · rw [txDepl_eq _ i3]
+        have g3 : Good (txTimeout s2) := ⟨by unfold WF; rw [p3.2.1]; exact g.1, i3⟩
+        obtain ⟨new, h1, h2⟩ := txFsm_succ (txTimeout s2) (s.rl.allowedBytes s.cfg.rlBitMax) g3
+        refine ⟨new, by rw [txFinish_log, h1, p3.2.2.2.2.2.1], ?_⟩
+        intro id hid
+        obtain ⟨j, hj⟩ := h2 id hid
+        rcases hj with he | ⟨r, hr, e1, e2⟩
+        · rw [txFinish_out _ (by rw [he, p3.2.2.2.1, hx])]
+          exact j.of_pre p3
+        · exact .empty r (p3.1 ▸ hr) e1 e2
+
+/-- the same statement with the new log events made explicit -/
+theorem processTx_success_late (s : State) (g : Good s) (hx : s.exc = none) :
+    ∃ evs, s.processTx.1.log = evs ++ s.log ∧
+      ∀ id, Ev.done id true ∈ evs → Justified s s.processTx.2.1 id := by
+  obtain ⟨evs, hevs⟩ := processTx_sfx s
+  obtain ⟨new, h1, h2⟩ := processTx_succ s g hx
+  refine ⟨evs, hevs.symm, ?_⟩
+  intro id hid
+  apply h2
+  rw [← hevs, succL_append] at h1
+  have := List.append_cancel_right h1
+  rw [← this, mem_succL]
+  exact hid
+
+
+/-! ## Aborts complete the request with failure -/
+
+theorem mem_pendingIds (s : State) (id : Nat) :
+    id ∈ pendingIds s ↔ (∃ r, s.active = some r ∧ r.id = id) ∨ (∃ r ∈ s.txQueue, r.id = id) := by
+  unfold pendingIds
+  cases h : s.active <;> simp [eq_comm]
+
+theorem resetEvents_spec (s : State) (e : Ev) :
+    e ∈ resetEvents s ↔ ∃ id ∈ pendingIds s, e = .done id false := by
+  simp only [resetEvents, List.mem_append, List.mem_map, List.mem_reverse, mem_pendingIds]
+  cases h : s.active with
+  | none =>
+    simp only [List.not_mem_nil, false_or, reduceCtorEq, false_and, exists_false]
+    constructor
+    · rintro ⟨r, hr, rfl⟩; exact ⟨r.id, ⟨r, hr, rfl⟩, rfl⟩
+    · rintro ⟨id, ⟨r, hr, rfl⟩, rfl⟩; exact ⟨r, hr, rfl⟩
+  | some a =>
+    simp only [List.mem_singleton, Option.some.injEq, exists_eq_left']
+    constructor
+    · rintro (rfl | ⟨r, hr, rfl⟩)
+      · exact ⟨a.id, .inl rfl, rfl⟩
+      · exact ⟨r.id, .inr ⟨r, hr, rfl⟩, rfl⟩
+    · rintro ⟨id, (rfl | ⟨r, hr, rfl⟩), rfl⟩
+      · exact .inl rfl
+      · exact .inr ⟨r, hr, rfl⟩
+
+theorem reset_pending (s : State) : pendingIds s.reset = [] := by
+  obtain ⟨-, h2, h3, -⟩ := reset_fields s
+  simp [pendingIds, h2, h3]
+
+theorem reset_completes (s : State) (id : Nat) (h : id ∈ pendingIds s) : Ev.done id false ∈ s.reset.log := by
+  rw [(reset_fields s).1]
+  exact List.mem_append_left _ ((resetEvents_spec s _).2 ⟨id, h, rfl⟩)
+
+theorem reset_log_mono (s : State) (e : Ev) (h : e ∈ s.log) : e ∈ s.reset.log := by
+  rw [(reset_fields s).1]; exact List.mem_append_right _ h
+
+/-- the logic-layer state after `TransportLayer.stop()` (up to the unread input, which `stop` drops) -/
+theorem stop_core (t : TL) :
+    t.stop.1.core = { (if t.mainThread = .running then t.core.reset.reset else t.core.reset) with inbox := [] } := by
+  unfold TL.stop TL.workerExit
+  by_cases h : t.mainThread = .running
+  · simp only [h, ↓reduceIte]
+  · simp only [h, ↓reduceIte]
+
+theorem stop_completes (t : TL) (id : Nat) (h : id ∈ pendingIds t.core) :
+    Ev.done id false ∈ t.stop.1.core.log ∧ pendingIds t.stop.1.core = [] := by
+  rw [stop_core]
+  split
+  · exact ⟨reset_log_mono _ _ (reset_completes _ _ h), reset_pending _⟩
+  · exact ⟨reset_completes _ _ h, reset_pending _⟩
+
+/-- `stop()` logs nothing but failed completions of pending requests: the second `reset()`
+    (the one `stop()` runs itself after the worker's `finally: reset()`) finds nothing left. -/
+theorem stop_log (t : TL) : t.stop.1.core.log = resetEvents t.core ++ t.core.log := by
+  rw [stop_core]
+  split
+  · show t.core.reset.reset.log = _
+    rw [(reset_fields _).1, (reset_fields t.core).1]
+    have : resetEvents t.core.reset = [] := by
+      obtain ⟨-, h2, h3, -⟩ := reset_fields t.core
+      simp [resetEvents, h2, h3]
+    rw [this]; rfl
+  · exact (reset_fields _).1
+
+
+theorem stopSending_abort (s : State) (r : Req) (b : Bool) (h : s.active = some r) :
+    (s.stopSending b).log = .done r.id b :: s.log ∧ (s.stopSending b).active = none ∧
+      (s.stopSending b).txState = .idle ∧ (s.stopSending b).txQueue = s.txQueue := by
+  unfold stopSending; simp [h, emit]
+
+/-! ### protocol errors -/
+
+theorem txPend_idle_eq (s : State) (h : s.pendingFc = false) : txPend s = (s, none) := by
+  unfold txPend; simp [h]
+
+/-- whatever the FSM part does afterwards, what was logged before stays in the log -/
+theorem processTx_after_pre (s s3 s3' : State) (hp : s.pendingFc = false) (hfc : txFc s = (s3', false))
+    (hs3 : s3 = txTimeout s3') (e : Ev) (he : e ∈ s3.log) : e ∈ s.processTx.1.log := by
+  rw [processTx_eq, txPend_idle_eq s hp]
+  simp only [hfc]
+  split
+  · subst hs3; exact he
+  · rw [txFinish_log]
+    subst hs3
+    exact ((txDepl_sfx _).trans (txFsm_sfx _ _)).subset he
+
+/-- Flow Control *Overflow*: the transmission is aborted, the request fails, nothing is sent. -/
+theorem overflow_aborts (s : State) (r : Req) (f : FcFrame) (hp : s.pendingFc = false)
+    (hf : s.lastFc = some f) (h2 : f.status = 2) (ha : s.active = some r) :
+    s.processTx.1.log = .err s.now .Overflow :: .done r.id false :: s.log ∧ s.processTx.1.active = none ∧
+      s.processTx.1.txState = .idle ∧ s.processTx.2.1 = none := by
+  have h : txFc s = (((State.stopSending { s with lastFc := none } false).error .Overflow), true) := by
+    unfold txFc; simp [hf, h2]
+  rw [processTx_eq, txPend_idle_eq s hp]
+  simp only [h]
+  obtain ⟨h1, h2, h3, -⟩ := stopSending_abort { s with lastFc := none } r false ha
+  have hn := (stopSending_fields { s with lastFc := none } false).2.2.2.2.2.2.2.1
+  refine ⟨?_, h2, h3, trivial⟩
+  simp only [State.error, emit, h1, hn]
+
+/-- N_Bs timeout (no Flow Control in time): the request in transmission fails. -/
+theorem fcTimeout_aborts (s : State) (r : Req) (hp : s.pendingFc = false) (hf : s.lastFc = none)
+    (ht : s.timerFc.timedOut s.now = true) (ha : s.active = some r) :
+    Ev.done r.id false ∈ s.processTx.1.log ∧ Ev.err s.now .FlowControlTimeout ∈ s.processTx.1.log := by
+  have h : txFc s = ({ s with lastFc := none }, false) := by unfold txFc; simp [hf]
+  have h3 : txTimeout { s with lastFc := none } =
+      State.stopSending (State.error { s with lastFc := none } .FlowControlTimeout) false := by
+    unfold txTimeout; simp [ht]
+  have hl := (stopSending_abort (State.error { s with lastFc := none } .FlowControlTimeout) r false ha).1
+  constructor
+  · apply processTx_after_pre s _ _ hp h h3.symm
+    rw [hl]; simp
+  · apply processTx_after_pre s _ _ hp h h3.symm
+    rw [hl]; simp [State.error, emit]
+
+/-- more Wait frames than `wftmax`: the request in transmission fails. -/
+theorem maxWaitFrame_aborts (s : State) (r : Req) (f : FcFrame) (hp : s.pendingFc = false)
+    (hf : s.lastFc = some f) (h1 : f.status = 1) (hst : s.txState ≠ .idle)
+    (ht : s.timerFc.timedOut s.now = false) (hw0 : s.cfg.wftmax ≠ 0) (hw : s.wftCnt ≥ s.cfg.wftmax)
+    (ha : s.active = some r) :
+    Ev.done r.id false ∈ s.processTx.1.log ∧ Ev.err s.now .MaximumWaitFrameReached ∈ s.processTx.1.log := by
+  have h : txFc s = (State.stopSending (State.error { s with lastFc := none } .MaximumWaitFrameReached) false, false) := by
+    unfold txFc handleFc; simp [hf, h1, hst, ht, hw0, hw]
+  have hl := (stopSending_abort (State.error { s with lastFc := none } .MaximumWaitFrameReached) r false ha).1
+  have hsfx := txTimeout_sfx (State.stopSending (State.error { s with lastFc := none } .MaximumWaitFrameReached) false)
+  constructor
+  · apply processTx_after_pre s _ _ hp h rfl
+    apply hsfx.subset; rw [hl]; simp
+  · apply processTx_after_pre s _ _ hp h rfl
+    apply hsfx.subset; rw [hl]; simp [State.error, emit]
+
+
+theorem sfTail_none (s : State) (r : Req) (b : Bool) (allowed : Nat) (r' : Req) (ha : s.active = some r') :
+    (sfTail s r b allowed none).1.log = .done r'.id false :: .err s.now .BadGenerator :: s.log ∧
+      (sfTail s r b allowed none).1.active = none ∧ (sfTail s r b allowed none).1.txState = .idle ∧
+      (sfTail s r b allowed none).2 = none := by
+  have := stopSending_abort (s.error .BadGenerator) r' false ha
+  exact ⟨this.1, this.2.1, this.2.2.1, rfl⟩
+
+theorem ffTail_none (s : State) (total : Nat) (allowed : Nat) (r' : Req) (ha : s.active = some r') :
+    (ffTail s total allowed none).1.log = .done r'.id false :: .err s.now .BadGenerator :: s.log ∧
+      (ffTail s total allowed none).1.active = none ∧ (ffTail s total allowed none).1.txState = .idle ∧
+      (ffTail s total allowed none).2 = none := by
+  have := stopSending_abort (s.error .BadGenerator) r' false ha
+  exact ⟨this.1, this.2.1, this.2.2.1, rfl⟩
+
+/-- `BadGeneratorError` at the start of a transmission (the generator yields fewer bytes than the
+    Single / First Frame needs): the request fails, nothing is sent. -/
+theorem badGenerator_start (s : State) (r : Req) (allowed : Nat) (ha : s.active = some r)
+    (hbad : (r.consume (if r.size + sfOff s r + s.txPrefixLen ≤ s.cfg.txDl then r.size else ffDataLen s r.size) true).2
+      = none) :
+    Ev.done r.id false ∈ (s.startTx r allowed).1.log ∧ Ev.err s.now .BadGenerator ∈ (s.startTx r allowed).1.log ∧
+      (s.startTx r allowed).1.active = none ∧ (s.startTx r allowed).1.txState = .idle ∧
+      (s.startTx r allowed).2 = none := by
+  rw [startTx_eq]
+  split
+  · rename_i h
+    simp only [h, ↓reduceIte] at hbad
+    obtain ⟨l, hl, -⟩ := consumeActive_fst s r r.size true
+    rw [consumeActive_snd, hbad]
+    generalize (s.consumeActive r r.size true).1 = s1 at hl ⊢
+    have ha1 : s1.active = some (r.consume r.size true).1 := by rw [hl]
+    have hn1 : s1.now = s.now := by rw [hl]
+    obtain ⟨e1, e2, e3, e4⟩ := sfTail_none s1 r (sizeOnFirst s r) allowed _ ha1
+    rw [consume_id] at e1
+    exact ⟨by rw [e1]; simp, by rw [e1]; simp [hn1], e2, e3, e4⟩
+  · rename_i h
+    simp only [h, ↓reduceIte] at hbad
+    obtain ⟨l, hl, -⟩ := consumeActive_fst { s with txFrameLen := r.size } r (ffDataLen s r.size) true
+    rw [consumeActive_snd, hbad]
+    generalize (State.consumeActive { s with txFrameLen := r.size } r (ffDataLen s r.size) true).1 = s1 at hl ⊢
+    have ha1 : s1.active = some (r.consume (ffDataLen s r.size) true).1 := by rw [hl]
+    have hn1 : s1.now = s.now := by rw [hl]
+    obtain ⟨e1, e2, e3, e4⟩ := ffTail_none s1 r.size allowed _ ha1
+    rw [consume_id] at e1
+    exact ⟨by rw [e1]; simp, by rw [e1]; simp [hn1], e2, e3, e4⟩
+
+theorem cfEnd_bad (s : State) (r' : Req) (rbs : Nat) (out : Option CanMsg) (ha : s.active = some r')
+    (hd : r'.depleted = true) (hr : r'.remaining > 0) :
+    (cfEnd s r' rbs out).1.log = .done r'.id false :: .err s.now .BadGenerator :: s.log ∧
+      (cfEnd s r' rbs out).1.active = none := by
+  unfold cfEnd
+  simp only [hd, hr, ↓reduceIte]
+  have := stopSending_abort (s.error .BadGenerator) r' false ha
+  exact ⟨this.1, this.2.1⟩
+
+/-- `BadGeneratorError` while sending Consecutive Frames (the generator runs dry before the declared
+    size): the request fails. -/
+theorem badGenerator_cf (s : State) (allowed : Nat) (r : Req) (rbs : Nat) (g : Good s)
+    (hst : s.txState = .transmitCf) (hrbs : s.remoteBs = some rbs) (ha : s.active = some r)
+    (ht : s.timerStmin.timedOut s.now = true) (hal : cfLen s r ≤ allowed) (hshort : r.src.length < cfLen s r) :
+    Ev.done r.id false ∈ (s.transmitCf allowed).1.log ∧ Ev.err s.now .BadGenerator ∈ (s.transmitCf allowed).1.log ∧
+      (s.transmitCf allowed).1.active = none := by
+  have ⟨hv8, hv64⟩ := valid_txDl _ g.1
+  have hpl : s.txPrefixLen ≤ 1 := txPrefix_le s.addr
+  have hnd : r.depleted = false := by
+    cases hd : r.depleted
+    · rfl
+    · have := (g.2.act r ha hd).1; simp_all
+  have hcs : r.consumed + cfLen s r ≤ r.size := by
+    unfold Req.depleted at hnd; unfold cfLen Req.remaining; grind
+  rw [transmitCf_eq]
+  simp only [hrbs, ha, ht, hal, ↓reduceIte]
+  obtain ⟨l, hl, -⟩ := consumeActive_fst s r (cfLen s r) false
+  rw [consumeActive_snd, hl]
+  obtain ⟨p, hp⟩ := Option.isSome_iff_exists.mp (consume_loose_isSome r _ hcs)
+  obtain ⟨p1, p2, p3, p4, p5⟩ := consume_loose r _ p hp
+  have hsz := consume_size r (cfLen s r) false
+  have hplen : p.length = r.src.length := by rw [p2, List.length_take]; omega
+  have hd' : (r.consume (cfLen s r) false).1.depleted = true := by
+    unfold Req.depleted; rw [p5.2 (.inr (by omega))]; simp
+  have hr' : (r.consume (cfLen s r) false).1.remaining > 0 := by
+    unfold Req.remaining; omega
+  rw [hp]
+  generalize hs1 : ({ s with log := l, active := some (r.consume (cfLen s r) false).1 } : State) = s1
+  have ha1 : s1.active = some (r.consume (cfLen s r) false).1 := by rw [← hs1]
+  have hn1 : s1.now = s.now := by rw [← hs1]
+  have hc1 : s1.cfg = s.cfg := by rw [← hs1]
+  have had1 : s1.addr = s.addr := by rw [← hs1]
+  by_cases hp0 : 0 < p.length
+  · have hmk : (makeTxMsg s1.cfg s1.addr (s1.addr.tx.txId .physical)
+        (s1.addr.tx.txPrefix ++ [u8 (0x20 + s1.txSeq)] ++ p)).isSome = true := by
+      apply makeTxMsg_isSome _ _ _ _ (by rw [hc1]; exact g.1)
+      · simp only [List.length_append, List.length_cons, List.length_nil]; omega
+      · simp only [List.length_append, List.length_cons, List.length_nil, cfLen, txPrefixLen, hc1, had1] at p1 hpl ⊢
+        omega
+    obtain ⟨msg, hm⟩ := Option.isSome_iff_exists.mp hmk
+    have he : cfTail s1 (r.consume (cfLen s r) false).1 rbs (some p) =
+        cfEnd (cfSent s1) (r.consume (cfLen s r) false).1 rbs (some msg) := by
+      simp only [cfTail, hp0, ↓reduceIte, hm]; rfl
+    rw [he]
+    obtain ⟨e1, e2⟩ := cfEnd_bad (cfSent s1) _ rbs (some msg) ha1 hd' hr'
+    rw [consume_id] at e1
+    exact ⟨by rw [e1]; simp, by rw [e1]; simp [cfSent, hn1], e2⟩
+  · have he : cfTail s1 (r.consume (cfLen s r) false).1 rbs (some p) =
+        cfEnd s1 (r.consume (cfLen s r) false).1 rbs none := by
+      simp only [cfTail, hp0, ↓reduceIte]; rfl
+    rw [he]
+    obtain ⟨e1, e2⟩ := cfEnd_bad s1 _ rbs none ha1 hd' hr'
+    rw [consume_id] at e1
+    exact ⟨by rw [e1]; simp, by rw [e1]; simp [hn1], e2⟩
+
+
+/-! ## Exactly once -/
+
+theorem mem_doneL (id : Nat) (l : List Ev) : id ∈ doneL l ↔ ∃ b, Ev.done id b ∈ l := by
+  simp only [doneL, List.mem_filterMap, List.mem_reverse]
+  constructor
+  · rintro ⟨e, he, h⟩
+    cases e <;> simp [doneOf] at h
+    subst h; exact ⟨_, he⟩
+  · rintro ⟨b, h⟩; exact ⟨_, h, rfl⟩
+
+theorem mem_doneIds (s : State) (id : Nat) : id ∈ doneIds s ↔ ∃ b, Ev.done id b ∈ s.log := by
+  rw [doneIds_eq, mem_doneL]
+
+/-- a log whose completion ids are pairwise distinct gives each request one outcome -/
+theorem outcome_unique_of_nodup (l : List Ev) (h : (doneL l).Nodup) (id : Nat) (b b' : Bool)
+    (h1 : Ev.done id b ∈ l) (h2 : Ev.done id b' ∈ l) : b = b' := by
+  induction l with
+  | nil => simp at h1
+  | cons e l ih =>
+    have hsplit : doneL (e :: l) = doneL l ++ (doneOf e).toList := by
+      simp only [doneL, List.reverse_cons, List.filterMap_append]; cases h : doneOf e <;> simp [List.filterMap_cons, h]
+    rw [hsplit, List.nodup_append] at h
+    obtain ⟨hn, -, hdis⟩ := h
+    simp only [List.mem_cons] at h1 h2
+    rcases h1 with h1 | h1 <;> rcases h2 with h2 | h2
+    · rw [← h1] at h2; cases h2; rfl
+    · subst h1
+      exact absurd rfl (hdis id ((mem_doneL id l).2 ⟨b', h2⟩) id (by simp [doneOf]))
+    · subst h2
+      exact absurd rfl (hdis id ((mem_doneL id l).2 ⟨b, h1⟩) id (by simp [doneOf]))
+    · exact ih hn h1 h2
+
+/-- **Exactly once.** For any history of API calls on a freshly constructed layer (valid parameters):
+    the completed and the still pending request ids are, together, exactly the ids accepted by `send`. -/
+theorem run_init_accounted (c : Cfg) (a : Addr) (hc : c.valid = true) (ops : List Op) :
+    (accounted (run (State.init c a) ops)).Perm (accepted (State.init c a) ops) := by
+  have := run_accounted (State.init c a) ops (init_good c a hc)
+  rwa [init_accounted, List.nil_append] at this
 
 end Isotp.C12
